@@ -296,7 +296,7 @@ class C04FPKernel(Harness):
     bounds_doc = ("binary64 (IEEE, round-to-nearest-even) execution of the real FixedWidthBinning._force_bin_existence_single / numpy_bins / "
                   "Histogram1D.fill / find_bin: one value v (symbolic binary64, |v| <= reach * width) filled into an empty or a 1-bin adaptive histogram "
                   "with a CONSTANT width from a fixed list; obligation: the value is inside a bin (fill returns an index in [0, bin_count), total == 1, no under/overflow)")
-    assumptions_doc = ("C04 FP kernel: widths are the listed constants, |v| <= reach*width (reach 8 quick / 30 thorough, 24 for the widths that are not exact in binary64), v finite and normal; "
+    assumptions_doc = ("C04 FP kernel: widths are the listed constants, |v| <= reach*width (reach 8 quick / 30 thorough, 25 for the widths that are not exact in binary64), v finite and normal; "
                        "symbolic widths and larger magnitudes are outside (QF_FP does not finish there)",)
 
     WIDTHS_QUICK = [0.5, 1.0, 0.25]
@@ -306,7 +306,7 @@ class C04FPKernel(Harness):
         for w in (self.WIDTHS_QUICK if tier == "quick" else self.WIDTHS_THOROUGH):
             # widths that are not exact in binary64 (0.1, 0.2, 0.3, 1e-3) make every QF_FP query slower: a shorter reach keeps the
             # verdict stable when the machine is loaded (they are the widths that lose values anyway - recorded findings)
-            yield f"fp-w{w}-empty", dict(w=w, start="empty", reach=8 if tier == "quick" else (30 if w in (0.5, 1.0, 0.25, 2.5, 10.0) else 24))
+            yield f"fp-w{w}-empty", dict(w=w, start="empty", reach=8 if tier == "quick" else (30 if w in (0.5, 1.0, 0.25, 2.5, 10.0) else 25))
             if tier != "quick" and w in (0.5, 1.0, 0.25, 2.5, 10.0):
                 # from a one-bin state the kernel forks over the number of bins added: minutes of QF_FP time per width
                 # (the widths that already lose values from the empty state are not repeated here)
